@@ -45,7 +45,7 @@ try:
     for pr in [prop] + extra:
         e2 = dict(os.environ, PYTHONPATH=os.path.join(wt, "src"), RSIM_REUSE_SRC=os.path.join(wt, "src") + "/", RSIM_NO_EVIDENCE="1",
                   RSIM_REPLAY_DIR=os.path.join(d, "replays"))
-        r = subprocess.run([os.path.join(V, "check"), pr, "--tier", "quick"], capture_output=True, text=True, timeout=1800, env=e2)
+        r = subprocess.run([os.path.join(V, "check"), pr, "--tier", "quick"], capture_output=True, text=True, errors="replace", timeout=1800, env=e2)
         sigs = sorted({l.split(": ", 1)[1] for l in r.stdout.splitlines() if l.startswith("violation: ")})
         caught[pr] = {"exit": r.returncode, "signatures": sigs}
     meta["checks"] = caught
